@@ -208,6 +208,8 @@ package rules
 // - in upper- or lower-case hex - stays encoded.
 // ======================================================================================
 
+// tmMatches(tm, v): the typed matcher tm (exact / glob / regex / any-of) accepts v
+//@ spec tmMatches(tm typedMatcher, v string) bool
 //@ spec decodeKeepSlashes(v string) string = replaceAll(pathUnescape(replaceAll(replaceAll(v, "%2F", "$$$escaped-slash$$$"), "%2f", "$$$escaped-slash$$$")), "$$$escaped-slash$$$", "%2F")
 //@ spec hasEncodedSlash(p string) bool = contains(p, "%2F") || contains(p, "%2f")
 
@@ -218,7 +220,10 @@ package rules
 //@   ensures handling != config2.EncodedSlashesOn ==> ret0 == decodeKeepSlashes(value)
 
 //@ iface (typedMatcher).match
+//@   props C03
 //@   logged tm
+//@   pure
+//@   defines tmMatches(recv, pattern)
 
 // the value compared with a path_params expression is the decoded segment (encoded slashes only
 // as the rule's setting permits); with `off` a path containing an encoded slash never matches.
@@ -229,3 +234,51 @@ package rules
 //@   ensures tm.n == old(tm.n) + 1 && old(m.slashHandling) == config2.EncodedSlashesOn && len(old(request.URL.RawPath)) != 0 ==> exists i int :: 0 <= i && i < len(keys) && old(keys[i]) == old(m.name) && tm.arg1[old(tm.n)] == pathUnescape(old(values[i]))
 //@   ensures tm.n == old(tm.n) + 1 && old(m.slashHandling) == config2.EncodedSlashesOnNoDecode && len(old(request.URL.RawPath)) != 0 ==> exists i int :: 0 <= i && i < len(keys) && old(keys[i]) == old(m.name) && tm.arg1[old(tm.n)] == decodeKeepSlashes(old(values[i]))
 //@   ensures tm.n == old(tm.n) + 1 && old(m.slashHandling) == config2.EncodedSlashesOff && len(old(request.URL.RawPath)) != 0 ==> exists i int :: 0 <= i && i < len(keys) && old(keys[i]) == old(m.name) && tm.arg1[old(tm.n)] == pathUnescape(old(values[i]))
+
+// ---- C03: match conditions ----
+//@ func (*exactMatcher).match
+//@   props C03
+//@   ensures ret0 <==> old(m.value) == value
+
+//@ iface (RouteMatcher).Matches
+//@   logged rm
+
+// scheme: only when set
+//@ func (schemeMatcher).Matches
+//@   props C03
+//@   ensures ret0 == nil <==> (len(s) == 0 || s == old(request.URL.Scheme))
+
+// methods: empty list means any method
+//@ func (methodMatcher).Matches
+//@   props C03
+//@   ensures ret0 == nil <==> (len(m) == 0 || exists i int :: 0 <= i && i < len(m) && old(m[i]) == old(request.Method))
+
+// host: the typed matcher decides on the request host
+//@ func (*hostMatcher).Matches
+//@   props C03
+//@   ensures ret0 == nil <==> tmMatches(old(m.typedMatcher), old(request.URL.Host))
+
+// a route matches only if every condition holds (conjunction, evaluated in order)
+//@ func (compositeMatcher).Matches
+//@   props C03
+//@   ensures ret0 == nil ==> rm.n == old(rm.n) + len(c)
+//@   ensures ret0 == nil ==> forall k int :: old(rm.n) <= k && k < rm.n ==> rm.ret0[k] == nil
+//@   ensures forall k int :: old(rm.n) <= k && k < rm.n ==> rm.arg0[k] == old(c[k - old(rm.n)]) && rm.arg1[k] == request
+//@   ensures ret0 != nil ==> rm.n > old(rm.n) && ret0 == rm.ret0[rm.n-1]
+//@   loop 0 invariant rm.n == old(rm.n) + idx + 1 && idx + 1 <= len(c)
+//@   loop 0 invariant forall k int :: old(rm.n) <= k && k < rm.n ==> rm.ret0[k] == nil && rm.arg0[k] == old(c[k - old(rm.n)]) && rm.arg1[k] == request
+
+// hosts: "any one of the listed host expressions" - the host condition is a single member of the
+// conjunction above (none when no host is listed), never one condition per listed host
+//@ func createHostMatcher
+//@   props C03
+//@   watch len(hosts)
+//@   ensures ret1 == nil ==> typeIs(ret0, compositeMatcher)
+//@   ensures ret1 == nil && len(hosts) == 0 ==> len(unbox(ret0, compositeMatcher)) == 0
+//@   ensures ret1 == nil && len(hosts) > 0 ==> len(unbox(ret0, compositeMatcher)) == 1
+
+// glob expressions are compiled for the separator of their use (host: '.', path segment: '/')
+//@ func newGlobMatcher
+//@   props C03
+//@   ensures ret1 == nil ==> gcomp.n == old(gcomp.n) + 1 && gcomp.arg0[old(gcomp.n)] == pattern && len(gcomp.arg1[old(gcomp.n)]) == 1 && gcomp.arg1[old(gcomp.n)][0] == separator
+//@   ensures ret1 == nil ==> typeIs(ret0, *globMatcher) && unbox(ret0, *globMatcher) != nil && unbox(ret0, *globMatcher).compiled == gcomp.ret0[old(gcomp.n)]
